@@ -1,6 +1,6 @@
 """C11: Merkle proof checks are complete and sound (check_proof, check_block_header_proof, check_account_proof)."""
 from ..gen import cells as G
-from ..translate import arith2
+from ..translate import arith2, prooffull
 from ..gen import tlbvals as V
 
 SPEC = dict(
@@ -45,8 +45,20 @@ SPEC = dict(
              "slices, concatenation and to_bytes included) and proved, for ALL values, to be the model's tests (c11_src_proof_tests, "
              "c11_src_header_tests, c11_src_account_tests, c11_src_cell_types); the hand model's check_proof / check_block_header_proof / "
              "check_account_proof are proved to be exactly the composition of these source tests in the order of the code (c11_src_check_proof, "
-             "c11_src_header, c11_src_account; first decisions of check_shard_proof: c11_src_shard).",
-        level_note='Trusted: Lean kernel; Spec/Cell.lean; Model/Cell.lean, Model/Proof.lean, Model/Locate.lean as hand transcriptions (sampled correspondence; the '
+             "c11_src_header, c11_src_account; first decisions of check_shard_proof: c11_src_shard). "
+             "Beyond the single tests, the WHOLE functions check_proof, check_block_header_proof (both modes) and check_account_proof are re-translated from "
+             "the source on every run (Generated/ProofFull.lean, translator pyfunc.py: every statement in order, with Python's evaluation order of the raising "
+             "sub-expressions cell[0] / get_hash / get_depth / to_bytes and of the operands of `or`) and Lean proves for ALL constructed cells, hashes and root lists "
+             "that they equal the hand model (c11_src_fn_check_proof: same raise decision, same returned state hash; c11_src_fn_account: for all values of the "
+             "declared externals Cell.from_boc / ShardStateUnsplit.deserialize / .accounts[0][key] / .cell that compose to the model's TL-B walk); "
+             "c11_src_complete, c11_src_sound_shape, c11_src_sound, c11_src_header_state_sound, c11_src_account_sound restate completeness and soundness for "
+             "the regenerated functions themselves.",
+        level_note='Trusted: Lean kernel; Spec/Cell.lean; the translator harness/translate/pyfunc.py (+ pyobj.py, pybytes.py, pyarith.py) and the declared reading of a '
+                   'Cell object in harness/translate/prooffull.py (Cell = PCell, cell[i] = refs[i], get_hash / get_depth = CellInfo.getHash / getDepth, .data / .hash '
+                   'property bodies checked against cell.py), validated against the running library whenever source or translator change; Model/Proof.lean '
+                   'checkProof / checkBlockHeaderProof(State) / checkAccountProof are no longer trusted as transcriptions (proved equal to the regenerated '
+                   'functions), check_shard_proof and the TL-B walk stay hand models; '
+                   'Model/Cell.lean, Model/Locate.lean as hand transcriptions (sampled correspondence; the '
                    'raise-tests of check_proof.py themselves are regenerated from the source and proved for all values, trusting the translator '
                    'harness/translate/pyarith.py and its reading of bytes operations in lean/TonVerif/PyBytes.lean + PyBytes2.lean; what the operands '
                    'cell[0].get_hash(0), cell.data, ... evaluate to remains with the hand model); '
@@ -55,9 +67,11 @@ SPEC = dict(
                    'over all their values, completeness needs them to return where such a cell is left unpruned; in the correspondence their verdicts are taken from '
                    'the library per case; check_shard_proof is modelled with Boolean parameters and has no correspondence; SHA-256 is a parameter, soundness '
                    'assumes no collision among the representations at hand.',
-        technique='Lean 4 proof (hand model) + differential correspondence with the library + source-regenerated decision lines',
+        technique='Lean 4 proof about functions regenerated from the source on every run (proved equal to the hand model for all inputs) '
+                  '+ differential correspondence with the library',
     ),
-    translators=[('check_proof.py raise-tests, exotic.py CellTypes->Generated/ProofChecks.lean', arith2.regenerator('ProofChecks'))],
+    translators=[('check_proof.py raise-tests, exotic.py CellTypes->Generated/ProofChecks.lean', arith2.regenerator('ProofChecks')),
+                 ('check_proof.py check_proof / check_block_header_proof / check_account_proof (whole functions)->Generated/ProofFull.lean', prooffull.regenerate)],
     design_ref='DESIGN.md §6 C11',
     rule='trees (ordinary DAGs, exotic trees with library cells and inner Merkle proofs/updates, block-like shapes), random pruning sets at Merkle '
          'depth 1, proof = MPROOF cell over the pruned tree; positive stream must be accepted by check_proof/check_block_header_proof; negative '
@@ -68,7 +82,9 @@ SPEC = dict(
          'ref group short / Grams cut / master_ref short / dict bit without ref, custom junk / missing / no bit, wrong tags), each pruned away (accept) and left in (reject), '
          'spec-encoded Account / McStateExtra cells from the C16 codecs. distinct = distinct (dag, op, '
          'hash); non-trivial = proof with at least one pruned branch or a negative case',
-    trusted_base=['Model/Proof.lean mirrors check_proof / check_block_header_proof / check_account_proof by hand (after fix commits 56bdc07, 3b51ac3, 83e0e94, 67bd38d)',
+    trusted_base=['harness/translate/pyfunc.py + prooffull.py: check_proof / check_block_header_proof / check_account_proof regenerated as Lean functions (declared reading of '
+                  'Cell objects; Cell.from_boc and the TL-B deserialiser calls are parameters); Model/Proof.lean is proved equal to them (after fix commits 56bdc07, 3b51ac3, 83e0e94, 67bd38d); '
+                  'check_shard_proof stays a hand model with Boolean parameters',
                   'Model/Locate.lean mirrors ShardStateUnsplit.deserialize / load_hashmap_aug_e / parse_aug / DepthBalanceInfo / ShardAccount by hand (after f2933e1, 602ccc8); '
                   'Account.deserialize (account$1) and McStateExtra.deserialize (ordinary cell) are Boolean parameters whose verdicts the harness takes from the library',
                   'BoC decoding (Cell.from_boc) is abstracted: roots list',
@@ -1420,6 +1436,37 @@ def src_search(ctx):
     ctx.src_account_first = any(k.startswith(('acct', 'shard')) for k in found)
     n0 = len(ctx.failures)
     rng = ctx.rng
+    if src_fn_search(ctx):
+        return True
+    src_families(ctx, rng)
+    return len(ctx.failures) > n0
+
+
+def src_fn_search(ctx):
+    """Search mode only: the regenerated WHOLE functions (Generated/ProofFull.lean) against the hand model on the requests of the
+    root-cell families, block-like trees and a short account stream (recorded with the library's verdicts); the requests on which
+    they differ are replayed first through the property's oracle.  True = a concrete failing input was found."""
+    n0 = len(ctx.failures)
+    try:
+        cases = prooffull.validation_cases()
+    except Exception as e:
+        ctx.notes.append(f'source-diff search (ProofFull): could not build the request grid: {type(e).__name__}: {e}')
+        return False
+    idx = prooffull.diff_lines(ctx, [c[0] for c in cases])
+    if not idx:
+        return False
+    ctx.src_account_first = ctx.src_account_first or any(cases[i][0].startswith('chkacct') for i in idx)
+    # the differing requests are outputs of the deterministic generators below: run those families (all of them, the differing
+    # requests are among them) through the oracle
+    rec_rng = prooffull.Recorder(20240915).rng
+    src_families(ctx, rec_rng)
+    if len(ctx.failures) == n0 and ctx.src_account_first:
+        account_stream(ctx, rec_rng)
+    return len(ctx.failures) > n0
+
+
+def src_families(ctx, rng):
+    """every root-cell family on Merkle proofs over unpruned chains of depth 0..9, and block-like trees with honest / forged state updates"""
     for depth in range(0, 10):
         nodes = [(G.ORD, '1', ())] + [(G.ORD, G.rand_bits(rng, 8), (i,)) for i in range(depth)]
         infos = G.spec_dag(nodes)
@@ -1456,7 +1503,6 @@ def src_search(ctx):
         run_proof_case(ctx, pn, R, h, 'acc', 'complete:check_proof', f'Merkle proof of a block-like tree built by pruning {npruned} subtrees rejected',
                        hdr_idx=proot, hdr_expect=state_hash_expect(nodes, infos, root, pn, proot), nontrivial=npruned > 0)
         forged_state_hash(ctx, rng, pn, pinfos, R, proot, h)
-    return len(ctx.failures) > n0
 
 
 def run(ctx):
